@@ -222,11 +222,29 @@ def filterable_provenance(cx, sf, rid):
 def r3_no_direct_io(cx):
     cx.rule("C06.R3", "declarative factories touch files and commands only through provider objects", floor=9)
     sf = cx.repo.module(SF)
-    for name in DECL_FACTORIES:
+    # every class that registers its instances as datasources is a factory, whether it is one of the nine frozen declarative kinds or a new one
+    others = []
+    for q, c in sf.classes():
+        if q in DECL_FACTORIES or "." in q:
+            continue
+        regs = False
+        try:
+            chain = cx.repo.mro(c)
+        except Exception:
+            chain = [c]
+        for kc_ in chain:
+            init_ = [st for st in kc_.body if isinstance(st, FUNC_TYPES) and st.name == "__init__"]
+            if init_:
+                regs = any(isinstance(x, ast.Call) and isinstance(x.func, ast.Call) and (call_attr(x.func) == "datasource" or call_name(x.func) == "datasource") for x in ast.walk(init_[0]))
+                break
+        if regs:
+            others.append(q)
+    for name in DECL_FACTORIES + others:
         c = sf.cls(name, "C06.R3")
         kc, call = cx.repo.lookup_method(c, "__call__")
         if call is None:
-            cx.unknown(c, "factory without __call__")
+            if name in DECL_FACTORIES:
+                cx.unknown(c, "factory without __call__")
             continue
         bad = []
         for x in find_calls(call.body):
@@ -237,6 +255,9 @@ def r3_no_direct_io(cx):
         if bad:
             for x in bad:
                 cx.bad(x, "factory %s.__call__ opens/executes directly instead of going through a validating provider (deny list and containment bypassed)" % name)
+            continue
+        if name not in DECL_FACTORIES:
+            cx.ok(call, "factory %s.__call__ does not open or execute anything directly" % name, construct="%s.__call__" % name)
             continue
         ctor = [x for x in find_calls(call.body) if U(x.func) == "self.kind" or (isinstance(x.func, ast.Name) and x.func.id.endswith("Provider"))]
         cx.require(bool(ctor), call, "factory %s builds its result from provider constructors only" % name,
